@@ -404,6 +404,12 @@ def cases(tier, seed):
                 out.append({'op': op, 'r': r, 'c': k, 'bits': 3, 'axis': axis})
                 if op == 'sum':
                     out.append({'op': op, 'r': r, 'c': k, 'bits': 2, 'axis': axis, 'rbits': 6})
+                if op == 'argmax':
+                    # `bits` sizes the returned indices (narrower and wider than the elements)
+                    out.append({'op': op, 'r': r, 'c': k, 'bits': 3, 'axis': axis, 'rbits': 2})
+                    out.append({'op': op, 'r': r, 'c': k, 'bits': 2, 'axis': axis, 'rbits': 5})
+                if op in ('min', 'max'):
+                    out.append({'op': op, 'r': r, 'c': k, 'bits': 2, 'axis': axis, 'rbits': 5})
         for order in 'CF':
             out.append({'op': 'flatten', 'r': r, 'c': k, 'bits': 3, 'order': order})
             for shape in (-1, r * k, [k, r], [-1, r], [k, -1], [[k, r]], [r * k, 1]):
